@@ -227,9 +227,16 @@ def run_stage_values(item):
     substage_guess('value given before the transcription', 2.25)
     with quiet():
         m.ocp.set_value(m.pb, 3.5)
+        g_w2b = float(m.ocp.initial_value(m.ocp.value(m.w2)))      # read BEFORE any further set_initial (which would re-apply every guess of the parent)
         m.ocp.set_initial(m.w, 0.25)
     parent_sees('set_value then set_initial on the parent, after the transcription', 3.5)
     substage_guess('parent value changed after the transcription', 3.5)
+    # the PARENT's own guess written in its parameter (set_initial(w2, 2*pb), declared before the transcription) follows the new value as well
+    if close(g_w2b, 7.0):
+        proved.append('parent guess 2*pb follows set_value(pb, 3.5) given after the transcription')
+    else:
+        viol.append({'property': PROP, 'key': 'parent-guess-of-own-parameter|%s' % method, 'label': 'set_initial(w2, 2*pb); transcribe; set_value(pb, 3.5)',
+                     'detail': 'w2 starts at %r; a fresh OCP with pb = 3.5 starts it at 7.0' % g_w2b})
     seen('clones untouched by the parent update')
     with quiet():
         m.ocp.subject_to(m.w <= 50)          # an edit: the next query transcribes again
